@@ -520,6 +520,11 @@ class ModelBase:
         return out
 
     def unpack(self, interp, st, v, n, target, stmt):
+        if v.ty == 'obj' and v.oid in st.heap and v.cls in interp.p.classes and interp.p.classes[v.cls].is_namedtuple:
+            # a NamedTuple instance unpacks into its fields, in declaration order
+            names = [f[0] for f in interp.p.classes[v.cls].fields]
+            if len(names) == n and all(k in st.heap[v.oid] for k in names):
+                return [st.heap[v.oid][k] for k in names]
         if v.elts is not None and len(v.elts) == n:
             parts = list(v.elts)
             if n == 3 and v.ty == 'tuple' and not v.unzip:
